@@ -27,8 +27,26 @@ func VP_C19_IndexRead() {
 	idx, err := NewIndex(g)
 	if err == nil {
 		zzvp.Assert(int(idx.EntryNum) == len(idx.Entries), "a staging area that loads has as many entries as its header says")
+		zzvp.Assert(vpFaithful(b, idx), "a staging-area file that loads is decoded faithfully: its entries, re-encoded, are the bytes of the file after the header")
 	}
 	zzvp.Done()
+}
+
+// vpFaithful: the loaded entries are exactly what the file holds (count field, then id, length and name of each entry in
+// order); bytes after the last entry are not judged.
+func vpFaithful(file []byte, idx *Index) bool {
+	if len(file) < 12 {
+		return false
+	}
+	n := int(file[8])<<24 | int(file[9])<<16 | int(file[10])<<8 | int(file[11])
+	if n != len(idx.Entries) {
+		return false
+	}
+	enc := vpEncode(idx.Entries)[12:]
+	if len(file) < 12+len(enc) {
+		return false
+	}
+	return string(file[12:12+len(enc)]) == string(enc)
 }
 
 const vpCfgAlpha = "\t\n -~"
